@@ -124,8 +124,9 @@ type nodeCase struct {
 	Bundles []nodeBundle      `json:"bundles"`
 }
 type nodeTrace struct {
-	Trace []string `json:"trace"`
-	Err   string   `json:"err"`
+	Trace   []string `json:"trace"`
+	Err     string   `json:"err"`
+	Timeout bool     `json:"timeout"`
 }
 type nodeBundleResult struct {
 	Name       string   `json:"name"`
@@ -134,6 +135,7 @@ type nodeBundleResult struct {
 	Dangling   []string `json:"dangling"`
 	Scanned    bool     `json:"scanned"`
 	ParseError string   `json:"parseError"`
+	Timeout    bool     `json:"timeout"`
 }
 type nodeResult struct {
 	ID        string             `json:"id"`
@@ -541,12 +543,12 @@ func Run(r *core.Run) {
 		}
 		go func() {
 			defer designWG.Done()
-			tlcrun.MustHold(r, tlcrun.Options{Module: "ShakeMC", Config: cfg, Workers: r.Pick(3, 4), TimeoutSec: r.Pick(600, 1500)})
+			tlcrun.MustHold(r, tlcrun.Options{Module: "ShakeMC", Config: cfg, Workers: r.Pick(3, 4), TimeoutSec: r.Pick(600, 2400)})
 		}()
 		go func() {
 			defer designWG.Done()
-			res := tlcrun.MustHold(r, tlcrun.Options{Module: "ShakeMC", Config: "Shake.sim.cfg", Workers: 1, TimeoutSec: r.Pick(600, 1500),
-				Simulate: fmt.Sprintf("num=%d", r.Pick(150, 3000)), Depth: 20, Seed: r.Seed})
+			res := tlcrun.MustHold(r, tlcrun.Options{Module: "ShakeMC", Config: "Shake.sim.cfg", Workers: r.Pick(1, 4), TimeoutSec: r.Pick(600, 2400),
+				Simulate: fmt.Sprintf("num=%d", r.Pick(150, 600)), Depth: 20, Seed: r.Seed})
 			if res != nil {
 				// simulation mode reports its state count differently
 				if m := reSimStates.FindStringSubmatch(res.Output); m != nil {
@@ -623,6 +625,12 @@ func Run(r *core.Run) {
 		return a.Inner < b.Inner
 	})
 	sort.Strings(shapeIDs)
+	// sanity of the spec data: without annotations (none in the shape, or ignored) nothing may vanish
+	for _, g := range graphs {
+		if (g.IgnoreAnn || len(shapes[g.Shape].Annotated) == 0) && g.Truth != "ann" && len(g.MayVanish) > 0 {
+			r.Infra("spec error: shape %s truth %s ignoreAnn %v lets %v vanish although no annotation applies", g.Shape, g.Truth, g.IgnoreAnn, g.MayVanish)
+		}
+	}
 	forms := map[string]bool{}
 	for _, s := range stmts {
 		forms[s.Form] = true
@@ -668,7 +676,7 @@ func Run(r *core.Run) {
 			}
 		}
 		// (2) a seeded sample of the whole product
-		extra := r.Pick(200, 6500)
+		extra := r.Pick(200, 3000)
 		for n := 0; n < extra; n++ {
 			scens = append(scens, mk(stmts[r.Rand.Intn(len(stmts))], shapeIDs[r.Rand.Intn(len(shapeIDs))]))
 		}
@@ -730,12 +738,24 @@ func Run(r *core.Run) {
 
 	// ---- compose the records
 	var all []*record
-	buildFailed, nodeMissing, rskipped, unscanned := 0, 0, 0, 0
+	buildFailed, nodeMissing, rskipped, unscanned, nodeTimeouts := 0, 0, 0, 0, 0
+	slotSeen, slotRemovable, slotKeptEffect, annotatedFiles := 0, 0, 0, 0
+	truthCount := map[string]int{}
+	labelCount := map[string]int{}
 	sampled := 0
 	for _, cr := range runs {
 		s := cr.scen
 		if cr.node == nil || cr.node.Fatal != "" || cr.node.Alone == nil || cr.node.Native == nil {
 			nodeMissing++
+			continue
+		}
+		timedOut := cr.node.Alone.Timeout || cr.node.Native.Timeout
+		for k := range cr.node.Bundles {
+			timedOut = timedOut || cr.node.Bundles[k].Timeout
+		}
+		if timedOut {
+			// a run that hit the vm time limit (overloaded machine) says nothing about the program
+			nodeTimeouts++
 			continue
 		}
 		rawTruth := truthOf(cr.node.Alone.Trace)
@@ -765,6 +785,8 @@ func Run(r *core.Run) {
 		natThrew := threw(cr.node.Native.Trace)
 		nontrivial := truth == "yes" || rawTruth == "ann" || hasAnnotation(cr.text) || len(s.Shape.Annotated) > 0
 		r.Case(s.id(), nontrivial)
+		truthCount[rawTruth]++
+		labelCount[s.Stmt.Label]++
 		byName := map[string]*nodeBundleResult{}
 		for k := range cr.node.Bundles {
 			byName[cr.node.Bundles[k].Name] = &cr.node.Bundles[k]
@@ -783,6 +805,30 @@ func Run(r *core.Run) {
 			if b.hasLnk {
 				project(rc, b.link, b.root, s.Shape)
 				b.link = nil
+				if rc.Slot.Present {
+					slotSeen++
+					allRem := true
+					for _, f := range rc.Files {
+						if f.ID != rc.Slot.File {
+							continue
+						}
+						for _, pi := range rc.Slot.Parts {
+							if pi < len(f.Parts) && !f.Parts[pi].Rem {
+								allRem = false
+							}
+						}
+					}
+					if allRem {
+						slotRemovable++
+					} else if truth == "yes" {
+						slotKeptEffect++
+					}
+				}
+				for _, f := range rc.Files {
+					if f.SeFree {
+						annotatedFiles++
+					}
+				}
 			}
 			if !b.ok {
 				buildFailed++
@@ -820,9 +866,19 @@ func Run(r *core.Run) {
 		}
 	}
 	r.Set("records", len(all))
+	r.Set("ground_truth_classes", truthCount)
+	r.Set("position_labels", labelCount)
+	r.Set("records_with_statement_located", slotSeen)
+	r.Set("records_statement_classified_removable", slotRemovable)
+	r.Set("records_effectful_statement_classified_unremovable", slotKeptEffect)
+	r.Set("files_marked_side_effect_free", annotatedFiles)
 	r.Set("builds_failed", buildFailed)
 	r.Set("end_to_end_not_compared_throwing_and_licensed", rskipped)
 	r.Set("bundles_not_statically_scanned", unscanned)
+	r.Set("scenarios_skipped_node_time_limit", nodeTimeouts)
+	if nodeTimeouts > len(runs)/20+2 {
+		r.Infra("%d scenarios hit the vm time limit", nodeTimeouts)
+	}
 	if nodeMissing > 0 {
 		r.Infra("%d scenarios have no node result", nodeMissing)
 	}
